@@ -288,7 +288,7 @@ def run(ck):
             ck.report_known(f['id'], '%s: %s (listed input: balance off by %.3g)' % (f['id'], f['what'], r['dev']))
     worst = 0.0
     worst_id = 0.0
-    ntv = 20 if ck.tier == 'quick' else 150        # further inverted Vs of tapered legs (bounded known-finding class, asserted at 4 %)
+    ntv = 50 if ck.tier == 'quick' else 250        # further inverted Vs of tapered legs (bounded known-finding class, asserted at 4 %)
     nme = 12 if ck.tier == 'quick' else 80         # sloped monopoles whose second end is on a perfect ground
     for i in range(n + ntv + nme):
         uniform = (i % 5 != 4) or i >= n
